@@ -324,6 +324,43 @@ def r13g(ctx, rep, cr):
         rep.holds('R13g', f, 'dispatch', 'every replayed transaction reaches the phase dispatch')
 
 
+def r13h(ctx, rep, cr):
+    rep.rule('R13h', 'memory follows the log at once: in every coordinator function that logs PhaseChange{to: Committing|Aborting}, once that '
+                     'log call has returned Ok no return — success or failure — is reachable before DistributedTransaction.phase has been '
+                     'set to that phase. If a later record (TxComplete) fails to be written and the function returns with the phase still '
+                     'Prepared, every guard that protects a logged decision (abort, cleanup_timeouts, force_resolve) reads the stale phase: '
+                     'the transaction is aborted and announced, and the next restart restores Committing from the log')
+    n = 0
+    for name, f in sorted(cr.fns.items()):
+        if not name.startswith(T.COORD) or '{closure' in name or f.file.endswith('tx_wal.rs'):
+            continue
+        pw = T.phase_writes(f)
+        defs, uses = A.Defs(f), A.Uses(f)
+        for D in ('Committing', 'Aborting'):
+            lc = T.log_calls(f, defs, 'PhaseChange', to=D)
+            for k, c in enumerate(lc):
+                ok = A.call_outcome(f, c, uses).ok
+                if not ok:
+                    continue
+                n += 1
+                rep.analysed(f)
+                dom = A.dominators(f)
+                heads = {x.bb for x in A.calls(f) if (re.search(r'Iterator>?::next$', x.generic) or re.search(r'Iterator>?::next$', x.resolved))
+                         and x.bb in dom[c.bb]}
+                setb = {bb for (bb, line, v) in pw if v == D}
+                # the phase may have been set before the record was written (set, log, undo on failure): then memory is not behind
+                before = any(bb in dom[c.bb] for bb in setb)
+                R = A.reachable(f, [t for (_, t) in ok], cut_blocks=setb | heads)
+                rets = [r for r in A.return_blocks(f) if r in R]
+                if rets and not before:
+                    rep.violation('R13h', f, 'logged-%s-not-in-memory' % D, f.loc(c.line),
+                                  'after PhaseChange→%s was logged the function can return (bb%s) with the in-memory phase unchanged: the '
+                                  'guards that protect a logged decision read the old phase' % (D, rets[:3]))
+                else:
+                    rep.holds('R13h', f, 'log→%s#%d' % (D, k), 'phase set before any return')
+    rep.floor('R13h', 'logged decisions followed to their returns', n, 2)
+
+
 def run(ctx, rep):
     cr = ctx.crate('tensor_chain')
     wal_rules.r02b(ctx, rep, ['TxWal'])
@@ -343,3 +380,4 @@ def run(ctx, rep):
     r13e(ctx, rep, cr)
     r13f(ctx, rep, cr)
     r13g(ctx, rep, cr)
+    r13h(ctx, rep, cr)
